@@ -142,7 +142,12 @@ def run(ctx: common.Ctx):
         'in canonical form - nodes keyed by frame / kind / range or record ids / sequence, typed edges as '
         'pairs of keys, sorted - with the graph of the Lean model Tvg.createVariantGraph on the same '
         'transcript fields and the same records in the order the real call received them; '
-        'non-trivial = the graph has a variant node')
+        'non-trivial = the graph has a variant node. Internal stream G-tvglang, same cases: the record lists of '
+        'ALL maximal paths of the real graph after create_variant_graph (walked in the dump from the child of '
+        'the frame root, per frame active from the start; graphs with more than 12 distinct records skipped) '
+        'against Tvg.attachedSubs of the model graph (Props.C01.tvg_attached_subs_spec), prefixed by whether '
+        'the input satisfies Tvg.poolInputOk (evaluated independently in Python on the real call arguments); '
+        'non-trivial = some path takes two or more records')
     base = dict(vary=True, per_tx=(1, 7), max_size=6, window=24, witness=False, as_frac=0.3, junction_mnv=0.1)
     res = cv_checks.explore(ctx, ctx.n(220, 4000), dict(base, exception=None, variations=['collapse'], stages=True,
                                                         tvgbuild=True))
@@ -152,6 +157,9 @@ def run(ctx: common.Ctx):
     # Layer G, function level: structural correspondence of the real graph after
     # create_variant_graph with Model/Tvg.lean (cases with only SNV / RNAEditingSite / INDEL records)
     cv_checks.judge_tvgbuild(ctx, res)
+    # … and its path language: the record lists of all maximal paths of the real graph vs
+    # `Tvg.attachedSubs` of the model's graph (Props.C01.tvg_attached_subs_spec)
+    cv_checks.judge_tvglang(ctx, res)
     res = cv_checks.explore(ctx, ctx.n(120, 2000), dict(base, exception='auto'))
     judge(ctx, res, 'trypsin-exc')
     stats2 = dict(ctx.coverage['worker_stats'])
@@ -205,7 +213,7 @@ def run(ctx: common.Ctx):
                                     'all-enzymes': stats3, 'special-codons': stats4,
                                     'nested-in-splicing': stats5}
     ctx.assumptions += [
-        'PARTIAL: of the graph construction only create_variant_graph on small records is modelled function by function (Model/Tvg.lean, tied structurally by the G-tvgbuild stream); the later stages (fit_into_codons, translate, cleavage graph, traversal) are tied to the definition only by '
+        'PARTIAL: of the graph construction only create_variant_graph on small records is modelled function by function (Model/Tvg.lean, tied structurally by the G-tvgbuild stream and, for its path language, by the G-tvglang stream; for the model the language theorem Props.C01.tvg_create_variant_graph_language_eq is proved); the later stages (fit_into_codons, translate, cleavage graph, traversal) are tied to the definition only by '
         'this differential and the Layer G checkpoints. Alternative-splicing records are in (without nested intronic variants); fusion and circRNA backbones have their own streams (one fusion / one circRNA per input, assembled by the harness from the record fields).',
         'transcript-level inputs of the definition come through the repository loaders '
         '(VariantRecordPool.load_variants, get_transcript_sequence): covered by C11/C13/C14',
